@@ -6,6 +6,8 @@ package config
 // relative to the working directory); the orchestrator runs several processes in parallel.
 
 import (
+	"github.com/fsnotify/fsnotify"
+	"syscall"
 	"bufio"
 	"context"
 	"fmt"
@@ -120,6 +122,55 @@ func (c *watchCase) line(toks []string) (string, bool) {
 			os.Remove(p)
 		}
 		return "", false
+	case "w.nofd":
+		// the watcher cannot be created (no file descriptor left: inotify_init1 fails with EMFILE): nothing may be
+		// notified, and after cancellation the stream must still end.  Run in a process of its own.
+		var old syscall.Rlimit
+		if err := syscall.Getrlimit(syscall.RLIMIT_NOFILE, &old); err != nil {
+			return "skip", true
+		}
+		low := old
+		low.Cur = 0
+		if err := syscall.Setrlimit(syscall.RLIMIT_NOFILE, &low); err != nil {
+			return "skip", true
+		}
+		defer syscall.Setrlimit(syscall.RLIMIT_NOFILE, &old)
+		if w, err := fsnotify.NewWatcher(); err == nil {
+			w.Close()
+			return "skip", true
+		}
+		os.Chdir(c.dir)
+		ctx, cancel := context.WithCancel(context.Background())
+		ch := DetectDeviceConfigChanges(ctx)
+		res := "quiet"
+		open := true
+		running := time.After(300 * time.Millisecond)
+	run:
+		for open {
+			select {
+			case _, ok := <-ch:
+				if ok {
+					res = "spurious"
+				} else {
+					open = false
+				}
+			case <-running:
+				break run
+			}
+		}
+		cancel()
+		deadline := time.After(1500 * time.Millisecond)
+		for open {
+			select {
+			case _, ok := <-ch:
+				if !ok {
+					open = false
+				}
+			case <-deadline:
+				return res + " open", true
+			}
+		}
+		return res + " closed", true
 	case "w.sleep":
 		time.Sleep(ms(1))
 		return "", false
